@@ -90,6 +90,7 @@ impl Tracker {
         let mut p = self.problems.lock().unwrap();
         if p.len() < 32 { p.push(s) }
     }
+    pub fn problem_pub(&self, s: String) { self.problem(s) }
     pub fn created(&self, id: u64) {
         if id == 0 || !self.enabled.load(SeqCst) { return }
         self.n_created.fetch_add(1, SeqCst);
